@@ -7,7 +7,7 @@ tasks=[]
 for d in sorted(os.listdir(root)):
     pf=os.path.join(root,d,'patch.diff')
     if os.path.exists(pf):
-        m=re.match(r'(?:r[235]_)?(C\d\d)_(\w+)$',d)
+        m=re.match(r'(?:r[2356]_)?(C\d\d)_(\w+)$',d)
         tasks.append((m.group(1),d,pf))
 with ThreadPoolExecutor(max_workers=6) as ex:
     for (P,d,pf),(st,info) in zip(tasks, ex.map(lambda t: seedeval.evaluate(t[2]), tasks)):
